@@ -21,7 +21,7 @@ using namespace llvm;
 static LLVMContext Ctx;
 static Module *Mod;
 static Type *I64, *I32, *I8P, *DblTy, *VoidTy, *I1;
-static FunctionCallee fnGetArg, fnSetArg, fnGetRet, fnSetRet, fnClearRet, fnBin, fnNeg, fnCmp, fnToInt, fnLoad, fnStore, fnMemcpy, fnMemset, fnMath1, fnMath2, fnEscape, fnFree, fnEnter, fnPost, fnOsWrite, fnIsPre, fnIsPost;
+static FunctionCallee fnGetArg, fnSetArg, fnGetRet, fnSetRet, fnClearRet, fnBin, fnNeg, fnCmp, fnToInt, fnLoad, fnStore, fnMemcpy, fnMemset, fnMath1, fnMath2, fnEscape, fnFree, fnEnter, fnPost, fnOsWrite, fnIsPre, fnIsPost, fnAscWrite, fnAscPre, fnAscPost;
 static int unknownFP = 0;
 static std::set<std::string> instrumentedElsewhere; // functions defined (and instrumented) in other translation units
 
@@ -112,6 +112,10 @@ struct FInstr {
       if (name=="_ZdlPv"||name=="free"||name=="_ZdaPv"||name=="_ZdlPvm"||name=="_ZdaPvm"){ IRBuilder<> B(I); B.CreateCall(fnFree,{B.CreateBitCast(CB->getArgOperand(0), I8P)}); return; }
       if (name=="_ZNSo5writeEPKcl"){ IRBuilder<> B(I); B.CreateCall(fnOsWrite,{B.CreateBitCast(CB->getArgOperand(0),I8P), B.CreateBitCast(CB->getArgOperand(1),I8P), CB->getArgOperand(2)}); return; }
       if (name=="_ZNSi4readEPcl"){ IRBuilder<> B(I); Value *pos=B.CreateCall(fnIsPre,{B.CreateBitCast(CB->getArgOperand(0),I8P)}); IRBuilder<> A2(after(I)); A2.CreateCall(fnIsPost,{A2.CreateBitCast(CB->getArgOperand(0),I8P), A2.CreateBitCast(CB->getArgOperand(1),I8P), CB->getArgOperand(2), pos}); return; }
+      if ((name=="_ZNSo9_M_insertIdEERSoT_"||name=="_ZNSolsEd") && CB->arg_size()==2){ // ostream << double (ASCII format): the shadow travels on a side tape keyed by (streambuf, offset of the token)
+        IRBuilder<> B(I); B.CreateCall(fnAscWrite,{B.CreateBitCast(CB->getArgOperand(0),I8P), S(CB->getArgOperand(1))}); return; }
+      if ((name=="_ZNSi10_M_extractIdEERSiRT_"||name=="_ZNSirsERd") && CB->arg_size()==2){ // istream >> double
+        IRBuilder<> B(I); Value *pos=B.CreateCall(fnAscPre,{B.CreateBitCast(CB->getArgOperand(0),I8P)}); IRBuilder<> A2(after(I)); A2.CreateCall(fnAscPost,{A2.CreateBitCast(CB->getArgOperand(0),I8P), A2.CreateBitCast(CB->getArgOperand(1),I8P), pos}); return; }
       if ((name=="__muldc3"||name=="__divdc3") && isDD(CB->getType()) && CB->arg_size()==4){
         // complex multiply / divide helpers of compiler-rt: model them over the reals
         IRBuilder<> B(after(I)); Value *a=CB->getArgOperand(0),*b=CB->getArgOperand(1),*c=CB->getArgOperand(2),*d=CB->getArgOperand(3);
@@ -182,6 +186,9 @@ int main(int argc,char**argv){
   fnOsWrite=M->getOrInsertFunction("__fpsym_oswrite", VoidTy, I8P, I8P, I64);
   fnIsPre=M->getOrInsertFunction("__fpsym_isread_pre", I64, I8P);
   fnIsPost=M->getOrInsertFunction("__fpsym_isread_post", VoidTy, I8P, I8P, I64, I64);
+  fnAscWrite=M->getOrInsertFunction("__fpsym_ascwrite", VoidTy, I8P, I64);
+  fnAscPre=M->getOrInsertFunction("__fpsym_ascread_pre", I64, I8P);
+  fnAscPost=M->getOrInsertFunction("__fpsym_ascread_post", VoidTy, I8P, I8P, I64);
   if (argc>3){ FILE*f=fopen(argv[3],"r"); if(f){ char buf[4096]; while(fgets(buf,sizeof buf,f)){ std::string l(buf); while(!l.empty()&&(l.back()=='\n'||l.back()==' ')) l.pop_back(); if(!l.empty()) instrumentedElsewhere.insert(l);} fclose(f);} }
   int n=0;
   for (auto &F : *M){ if (F.isDeclaration()||F.getName().startswith("__fpsym_")||F.getName().startswith("asan.")||F.getName().startswith("__asan")) continue; FInstr fi(F); fi.run(); n++; }
